@@ -17,7 +17,7 @@ RULE = ("modes 1/2: digests of the exact shape 0^k 1 x.. for every k in 0..256 c
         "(every (k,d) pair in thorough) through all three count_leading_zero_bits and digest_meets_difficulty, plus spans "
         "of 0..40 bytes; modes 3/4/5: the node handshake validator, the CLI validator, announce and store validators on "
         "random fields and on nonces produced by an independent python miner (so about half the cases are valid proofs at "
-        "the tested difficulty and half are one bit short), each field perturbed in turn; modes 6..9: the real solvers "
+        "the tested difficulty and half are one bit short), each field perturbed in turn, and valid proofs whose nonce is 0, 1, 2^32 or 2^64-1 (the fields are mined instead); modes 6..9: the real solvers "
         "(solve_token_challenge, compute_handshake_pow, the CLI's compute_transport_pow, compute_announce_pow, "
         "compute_store_pow) at difficulties 0..7 -- the model replays the same candidate order from the generator outputs "
         "computed by a python mt19937_64. Oracle (independent of the model): hashlib.sha256 over a python re-statement of "
@@ -221,6 +221,25 @@ def generate(rng, tier):
             eff = min(dd, 24)
             nonce = mine(lambda x: st_pre(c, size, fn, x), min(eff, 10), s0, good) if dd else s0
             cases.append({"ints": [5] + c + u64(size) + lp(fn) + u64(nonce) + [dd], "tag": "store-valid"})
+    # --- special nonces (0, 1, 2^64-1, 2^32) that ARE valid proofs: the fields are mined instead of the nonce, so a
+    #     validator that treats some nonce value specially (e.g. "0 = unsolved") is visible
+    for _ in range({"quick": 12, "search": 24, "thorough": 200}[tier]):
+        d = rng.choice([1, 2, 3, 4, 5, 6])
+        nonce = rng.choice([0, 0, 0, 1, M64, 1 << 32])
+        kind = rng.randrange(3)
+        for _try in range(4096):
+            if kind == 0:
+                i, r = rid(rng), rid(rng); pub = rng.randrange(1 << 32)
+                if lzb(H(hs_pre(i, r, pub, nonce))) >= d:
+                    cases.append({"ints": [3] + i + r + [pub] + u64(nonce) + [d], "tag": "hs-special-nonce"}); break
+            elif kind == 1:
+                a = rann(rng)
+                if lzb(H(an_pre(a, nonce))) >= d:
+                    cases.append({"ints": [4] + ann_ints(a) + u64(nonce) + [d], "tag": "ann-special-nonce"}); break
+            else:
+                c = rid(rng); size = rng.randrange(1 << 34); fn = bytes(rng.randrange(1, 256) for _ in range(rng.choice([0, 3, 20])))
+                if lzb(H(st_pre(c, size, fn, nonce))) >= d:
+                    cases.append({"ints": [5] + c + u64(size) + lp(fn) + u64(nonce) + [d], "tag": "store-special-nonce"}); break
     # --- solvers
     m = {"quick": 10, "search": 16, "thorough": 150}[tier]
     for _ in range(m):
